@@ -1,9 +1,9 @@
 import SigModel.Model.Bulk
 import Oracle.Util
 /- suite "bulk":     bulk T=<entry>,<entry>,... <line> <line> ...
-     entry ::= <go part>/<valid 0|1>:<real slot>:<storefail 0|1>     the request's table of index names (slot = position)
+     entry ::= <go part>/<valid 0|1>:<real slot>:<storefail 0|1>:<kibana 0|1>     the request's table of index names (slot = position)
      line  ::= <template>/<i|c|u|o>:<len>:<docOk 0|1>:<id>:<slot>
-   → items=<c|f|t...> errors=<0|1> processed=<n> stored=<real>:<slot>=<id,id,...>;...   (per batch the store took, sorted by real index then slot; ids in hand-over order)
+   → items=<c|f|t|u...> errors=<0|1> processed=<n> allfailed=<0|1> stored=<real>:<slot>=<id,id,...>;...   (u = 503; per batch the store took, sorted by real index then slot; ids in hand-over order)
    suite "bulk_e2e": bulke2e T=... <line> ... [|| <line> ...]
    → items=<...>[|<...>] stored=<real>=<id,...>;...   (per real index the documents found after the flush, ids ascending) -/
 namespace Oracle.C15
@@ -24,15 +24,17 @@ structure Entry where
   valid : Bool
   real  : Nat
   fail  : Bool
+  kib   : Bool
 
 def parseEntry (s0 : String) : Option Entry :=
   match s0.splitOn "/" with
   | [_, a] =>
     match a.splitOn ":" with
-    | [v, r, f] =>
-      match v.toNat?, r.toNat?, f.toNat? with
-      | some v, some r, some f => if v ≤ 1 ∧ f ≤ 1 then some { valid := v == 1, real := r, fail := f == 1 } else none
-      | _, _, _ => none
+    | [v, r, f, k] =>
+      match v.toNat?, r.toNat?, f.toNat?, k.toNat? with
+      | some v, some r, some f, some k =>
+        if v ≤ 1 ∧ f ≤ 1 ∧ k ≤ 1 then some { valid := v == 1, real := r, fail := f == 1, kib := k == 1 } else none
+      | _, _, _, _ => none
     | _ => none
   | _ => none
 
@@ -42,11 +44,12 @@ def parseTable (s : String) : Option (List Entry) :=
 /-- the environment an index table stands for; a slot outside the table is an invalid name -/
 def envOf (t : List Entry) : Env :=
   { valid := fun k => match t[k]? with | some e => e.valid | none => false
+    kibana := fun k => match t[k]? with | some e => e.kib | none => false
     resolve := fun k => match t[k]? with | some e => e.real | none => k
     store := fun i _ => match t[i]? with | some e => !e.fail | none => true }
 
-def showItems (s : St) : String :=
-  String.join (s.items.map (fun | .created => "c" | .failed => "f" | .tooLarge => "t"))
+def showItems (r : Resp) : String :=
+  String.join (r.items.map (fun | .created => "c" | .failed => "f" | .tooLarge => "t" | .unavailable => "u"))
 
 def insertBy {α : Type} (lt : α → α → Bool) (x : α) : List α → List α
   | [] => [x]
@@ -59,13 +62,13 @@ def commaNats (l : List Nat) : String := ",".intercalate (l.map toString)
 /-- the batches the store took: (real index, index name, document ids in hand-over order) -/
 def takenBatches (r : Resp) : List (Nat × Nat × List Nat) :=
   r.calls.filterMap (fun c => match c.res with
-    | .stored real => some (real, c.idx, c.docs.map (·.2))
+    | .stored real => some (real, c.idx, c.docs.map (·.2.1))
     | _ => none)
 
 def showBulk (r : Resp) : String :=
   let bs := sortBy (fun a b => a.1 < b.1 || (a.1 == b.1 && a.2.1 < b.2.1)) (takenBatches r)
   let stored := ";".intercalate (bs.map (fun b => s!"{b.1}:{b.2.1}={commaNats b.2.2}"))
-  s!"items={showItems r.st} errors={if r.st.overallError then 1 else 0} processed={r.st.processed} stored={stored}"
+  s!"items={showItems r} errors={if r.errors then 1 else 0} processed={r.st.processed} allfailed={if r.numCreated == 0 then 1 else 0} stored={stored}"
 
 /-- per real index the ids (≠ 0: only the generator's documents carry a _vid) the store took, ascending, over all requests -/
 def showFound (rs : List Resp) : String :=
@@ -87,7 +90,7 @@ def handle (cmd : String) (args : List String) : Option String :=
     | some tab, some bs =>
       -- concurrent requests: each body is handled independently; the stored set is the union
       let rs := bs.map (handleReq (envOf tab))
-      some s!"items={"|".intercalate (rs.map (fun r => showItems r.st))} stored={showFound rs}"
+      some s!"items={"|".intercalate (rs.map showItems)} stored={showFound rs}"
     | _, _ => some "bad-op"
   | "bulk", t :: rest =>
     match parseTable t, rest.mapM parseLine with
